@@ -43,6 +43,9 @@ type wireOp struct {
 	callee *ast.FuncDecl
 	args   []ast.Expr
 	lhs    ast.Expr
+	// fixed ops whose value (writer) / destination pointer (reader) is a parameter of the
+	// enclosing function itself: index of that parameter (+1; 0 = none)
+	paramIdx int
 }
 
 func (o wireOp) String() string {
@@ -119,52 +122,12 @@ func (w *World) wireOps(fd *ast.FuncDecl, writer bool) []wireOp {
 		case *ast.CallExpr:
 			switch {
 			case w.calleeIs(x, "encoding/binary", "", "Write") && writer && len(x.Args) == 3:
-				op := wireOp{kind: "fixed", order: types.ExprString(x.Args[1]), pos: x.Pos()}
-				op.typ = w.Info.TypeOf(x.Args[2]).String()
-				op.field, op.lenOf = w.subjectField(x.Args[2], params)
-				if tv := w.Info.Types[x.Args[2]]; tv.Value != nil {
-					op.cnst = tv.Value.ExactString()
-				}
+				op := w.fixedWriteOp(types.ExprString(x.Args[1]), x.Args[2], x.Pos(), params)
+				op.paramIdx = w.paramIndexOf(fd, x.Args[2])
 				ops = append(ops, op)
 			case w.calleeIs(x, "encoding/binary", "", "Read") && !writer && len(x.Args) == 3:
-				op := wireOp{kind: "fixed", order: types.ExprString(x.Args[1]), pos: x.Pos()}
-				if p, ok := w.Info.TypeOf(x.Args[2]).(*types.Pointer); ok {
-					op.typ = p.Elem().String()
-				}
-				if u, ok := x.Args[2].(*ast.UnaryExpr); ok && u.Op == token.AND {
-					if fld, _ := w.subjectField(u.X, params); fld != "" && !strings.HasPrefix(fld, "param:") {
-						op.field = fld
-					} else if id, ok := u.X.(*ast.Ident); ok {
-						op.local = id.Name
-						lv := w.Info.Uses[id]
-						// what is the local used for?
-						ast.Inspect(fd.Body, func(m ast.Node) bool {
-							switch y := m.(type) {
-							case *ast.AssignStmt:
-								// F = make([]byte, local) / data := make([]byte, local)
-								if len(y.Rhs) == 1 {
-									if mk, ok := y.Rhs[0].(*ast.CallExpr); ok {
-										if id2, ok := mk.Fun.(*ast.Ident); ok && id2.Name == "make" && len(mk.Args) >= 2 && w.mentions(mk.Args[1], lv) {
-											op.lenOf = true
-											if fld, _ := w.subjectField(y.Lhs[0], params); fld != "" {
-												op.field = fld
-											} else if id3, ok := y.Lhs[0].(*ast.Ident); ok {
-												op.field = "local:" + id3.Name
-											}
-										}
-									}
-								}
-							case *ast.BinaryExpr:
-								if (y.Op == token.NEQ || y.Op == token.EQL) && w.mentions(y.X, lv) {
-									if tv := w.Info.Types[y.Y]; tv.Value != nil {
-										op.cnst = tv.Value.ExactString()
-									}
-								}
-							}
-							return true
-						})
-					}
-				}
+				op := w.fixedReadOp(fd, types.ExprString(x.Args[1]), x.Args[2], x.Pos(), params)
+				op.paramIdx = w.paramIndexOf(fd, x.Args[2])
 				ops = append(ops, op)
 			case writer:
 				if f := w.callee(x); f != nil && f.Pkg() != nil && f.Pkg().Path() == twigPath {
@@ -197,6 +160,83 @@ func (w *World) wireOps(fd *ast.FuncDecl, writer bool) []wireOp {
 	})
 	sort.SliceStable(ops, func(i, j int) bool { return ops[i].pos < ops[j].pos })
 	return ops
+}
+
+// paramIndexOf: e is (exactly) a parameter of fd: its index + 1, else 0.
+func (w *World) paramIndexOf(fd *ast.FuncDecl, e ast.Expr) int {
+	id, ok := ast.Unparen(e).(*ast.Ident)
+	if !ok || fd.Type.Params == nil {
+		return 0
+	}
+	obj := w.Info.Uses[id]
+	i := 0
+	for _, f := range fd.Type.Params.List {
+		for _, n := range f.Names {
+			i++
+			if w.Info.Defs[n] == obj && obj != nil {
+				return i
+			}
+		}
+		if len(f.Names) == 0 {
+			i++
+		}
+	}
+	return 0
+}
+
+func (w *World) fixedWriteOp(order string, val ast.Expr, pos token.Pos, params map[types.Object]bool) wireOp {
+	op := wireOp{kind: "fixed", order: order, pos: pos}
+	op.typ = w.Info.TypeOf(val).String()
+	op.field, op.lenOf = w.subjectField(val, params)
+	if tv := w.Info.Types[val]; tv.Value != nil {
+		op.cnst = tv.Value.ExactString()
+	}
+	return op
+}
+
+// fixedReadOp: binary.Read(r, order, ptr) in (or on behalf of) function fd: what the destination
+// is — a CompiledTemplate field, or a local whose later use (buffer size, comparison with a
+// constant) is looked up in fd's body.
+func (w *World) fixedReadOp(fd *ast.FuncDecl, order string, ptr ast.Expr, pos token.Pos, params map[types.Object]bool) wireOp {
+	op := wireOp{kind: "fixed", order: order, pos: pos}
+	if p, ok := w.Info.TypeOf(ptr).(*types.Pointer); ok {
+		op.typ = p.Elem().String()
+	}
+	if u, ok := ast.Unparen(ptr).(*ast.UnaryExpr); ok && u.Op == token.AND {
+		if fld, _ := w.subjectField(u.X, params); fld != "" && !strings.HasPrefix(fld, "param:") {
+			op.field = fld
+		} else if id, ok := u.X.(*ast.Ident); ok {
+			op.local = id.Name
+			lv := w.Info.Uses[id]
+			// what is the local used for?
+			ast.Inspect(fd.Body, func(m ast.Node) bool {
+				switch y := m.(type) {
+				case *ast.AssignStmt:
+					// F = make([]byte, local) / data := make([]byte, local)
+					if len(y.Rhs) == 1 {
+						if mk, ok := y.Rhs[0].(*ast.CallExpr); ok {
+							if id2, ok := mk.Fun.(*ast.Ident); ok && id2.Name == "make" && len(mk.Args) >= 2 && w.mentions(mk.Args[1], lv) {
+								op.lenOf = true
+								if fld, _ := w.subjectField(y.Lhs[0], params); fld != "" {
+									op.field = fld
+								} else if id3, ok := y.Lhs[0].(*ast.Ident); ok {
+									op.field = "local:" + id3.Name
+								}
+							}
+						}
+					}
+				case *ast.BinaryExpr:
+					if (y.Op == token.NEQ || y.Op == token.EQL) && w.mentions(y.X, lv) {
+						if tv := w.Info.Types[y.Y]; tv.Value != nil {
+							op.cnst = tv.Value.ExactString()
+						}
+					}
+				}
+				return true
+			})
+		}
+	}
+	return op
 }
 
 func (w *World) calleeDecl(c *ast.CallExpr) *ast.FuncDecl {
@@ -293,6 +333,20 @@ func (w *World) flatWire(fd *ast.FuncDecl, writer bool, depth int) []wireOp {
 			})
 		}
 		for _, so := range sub {
+			if so.kind == "fixed" && so.paramIdx > 0 && so.paramIdx-1 < len(op.args) {
+				// binary.Write(w, order, v) / binary.Read(r, order, v) with v a parameter of the
+				// helper: the operation is the caller's, with the caller's argument
+				arg := op.args[so.paramIdx-1]
+				var rebuilt wireOp
+				if writer {
+					rebuilt = w.fixedWriteOp(so.order, arg, op.pos, callerParams)
+				} else {
+					rebuilt = w.fixedReadOp(fd, so.order, arg, op.pos, callerParams)
+				}
+				rebuilt.paramIdx = w.paramIndexOf(fd, arg)
+				out = append(out, rebuilt)
+				continue
+			}
 			if nf, ok := ren[so.field]; ok {
 				so.field = nf
 			}
